@@ -112,7 +112,7 @@ def gen(rng, tier, shard, nshards):
             kw = dict(kvcls='unclamped_endrep', mindeg=2)
         elif rng.random() < 0.12:
             kw = dict(kvcls='jump', maxextra=6)      # interior knot of multiplicity p + 1
-        sd = G.rand_shape(rng, pdim, dim=dim, normalize=rng.random() < 0.7, **kw)
+        sd = G.rand_shape(rng, pdim, dim=dim, normalize=rng.random() < 0.7, span=rng.choice([None, 'linear', 'binary']), **kw)
         yield {'kind': 'shape', 'sd': sd, 'seed': rng.randrange(1 << 30)}
 
 
